@@ -276,8 +276,12 @@ def oracle(ctx, widened):
         xa = P6(x) if first == "TNW" else x
         orbA, propA, _ = make(first, sma, xa)
         direct = np.array(orbA.propagate(timedelta(seconds=q(t1 + t2))))
-        leg1 = orbA.propagate(timedelta(seconds=t1))
-        make(second, sma, x)                      # another Hill frame of the other orientation comes into existence
+        if rng.random() < 0.5:
+            make(second, sma, x)                  # another Hill frame of the other orientation comes into existence …
+            leg1 = orbA.propagate(timedelta(seconds=t1))
+        else:
+            leg1 = orbA.propagate(timedelta(seconds=t1))
+            make(second, sma, x)                  # … before or after the first leg
         two = np.array(leg1.propagate(timedelta(seconds=t2)))
         out.count(key=("compose-interleaved", first, sma, t1, t2), kind="compose-interleaved-" + first)
         if not np.allclose(two, direct, rtol=1e-7, atol=1e-7 * scale):
